@@ -21,7 +21,14 @@ def natList (xs : List Nat) : Val := .list (xs.map fun (i : Nat) => .cell (.int 
 compares them natively with those by value, so the model has no separate cells for them. -/
 partial def normSexp : Sexp → Sexp
   | .atom s => if s.startsWith "TS:" then .atom ("T:" ++ (s.drop 3).toString)
-               else if s.startsWith "NS:" then .atom ("S:" ++ (s.drop 3).toString) else .atom s
+               else if s.startsWith "NS:" then .atom ("S:" ++ (s.drop 3).toString)
+               -- `NI.<numpy type>:<int>` / `NF.<numpy type>:<quarters|nan|inf>`: the other numpy integer / float types (unsigned, narrow,
+               -- longlong, float16/32, longdouble) denote the python number `as_primitive` makes of them
+               else if s.startsWith "NI." || s.startsWith "NF." then
+                 match s.splitOn ":" with
+                 | [h, b] => .atom ((if h.startsWith "NI." then "I:" else "F:") ++ b)
+                 | _ => .atom s
+               else .atom s
   | .node xs => .node (xs.map normSexp)
 
 /-- `NAT` (`pd.NaT`) and `NAT64` (`np.datetime64('NaT')`) are the missing date; everything else is a value -/
